@@ -3264,12 +3264,21 @@ class QuicConnection:
                 packet_type = QuicPacketType.HANDSHAKE
             builder.start_packet(packet_type, crypto)
 
+            # A server must expand datagrams which carry ack-eliciting Initial
+            # packets to at least 1200 bytes. When the anti-amplification limit
+            # leaves less than that, an Initial packet can only acknowledge.
+            ack_only = (
+                epoch == tls.Epoch.INITIAL
+                and not self._is_client
+                and builder.datagram_capacity < SMALLEST_MAX_DATAGRAM_SIZE
+            )
+
             # ACK
             if space.ack_at is not None:
                 self._write_ack_frame(builder=builder, space=space, now=now)
 
             # CRYPTO
-            if not crypto_stream.sender.buffer_is_empty:
+            if not crypto_stream.sender.buffer_is_empty and not ack_only:
                 if self._write_crypto_frame(
                     builder=builder, space=space, stream=crypto_stream
                 ):
@@ -3278,6 +3287,7 @@ class QuicConnection:
             # PING (probe)
             if (
                 self._probe_pending
+                and not ack_only
                 and not self._handshake_complete
                 and (
                     epoch == tls.Epoch.HANDSHAKE
